@@ -8,7 +8,7 @@ from filter_functions import basis as ffb
 from filter_functions import util
 
 from .. import gens
-from ..common import driver
+from ..common import corr_script, driver
 from .c05 import embed
 
 THEOREMS = '''argsort_is_inverse argsort_is_perm argsort_perm_eq_symm exists_mat_of_matrix
@@ -18,9 +18,28 @@ remap_control_matrix_model remap_ff_incomplete_basis_counterexample remap_filter
 remap_filter_function_complete remap_filter_function_compose remap_id remap_id_labels remap_isEigh
 remap_isEigh_gen remap_liouville remap_liouville_model remap_liouville_swap remap_propagators
 remap_propagators_gen remap_scatter_gather remap_segProp remap_segProp_gen remap_total_propagator
-swapFin_apply swap_kron swap_kronFin swap_product_basis tensor_transpose_pi'''.split() + ['FFVerif.C05d.' + t for t in '''remap_keeps_diag remap_cm_iff remap_omega_iff
+swapFin_apply swap_kron swap_kronFin swap_product_basis tensor_transpose_pi'''.split() + [
+    # module C06Def: the definition part of remap (identifiers, order, coefficients, times, cached rows)
+    'FFVerif.C06Def.mapIdentifiers_spec',
+    'FFVerif.C06Def.remapDef_sorted',
+    'FFVerif.C06Def.remapDef_none_order',
+    'FFVerif.C06Def.remapDef_keeps_association',
+    'FFVerif.C06Def.remapDef_term_mem',
+    'FFVerif.C06Def.remapDef_errors_iff',
+    'FFVerif.C06Def.remapDef_order_irrelevant',
+    'FFVerif.C06Def.remapDef_operator_order_irrelevant',
+    'FFVerif.C06Def.remapDef_times',
+    'FFVerif.C06Def.remapDef_id',
+    'FFVerif.C06Def.remapDef_id_dict',
+    'FFVerif.C06Def.remapDef_compose',
+    'FFVerif.C06Def.argsortNat_eq',
+    'FFVerif.C06Def.scatter_argsort_eq_gather',
+    'FFVerif.C06Def.remap_cached_rows_follow_noise_order',
+    'FFVerif.C06Def.scatter_rows_perm',
+    'FFVerif.C06Def.remap_duplicates_rejected',
+    'FFVerif.C06Def.remap_duplicates_rejected_at', 'FFVerif.C06Def.remapDef_ids_unique'] + ['FFVerif.C05d.' + t for t in '''remap_keeps_diag remap_cm_iff remap_omega_iff
 remap_lazy_iff remap_not_pauli_blocks_auto'''.split()]
-LEAN_MODULES = ['FFVerif.Props.C06', 'FFVerif.Props.C05d']
+LEAN_MODULES = ['FFVerif.Props.C06', 'FFVerif.Props.C05d', 'FFVerif.Props.C06Def']
 PINS = ['pinRemap', 'pinMapIdentifiers']
 GEN_SITES = ['einsum:numeric_calculate_control_matrix_from_scratch_0']
 COMPONENTS = ['pauli_remap', 'remap_decision']
@@ -52,6 +71,8 @@ def decision_correspondence(ctx):
 
 def correspondence(ctx):
     decision_correspondence(ctx)
+    # definition part of remap / extend on real pulses vs the model RemapDef
+    corr_script(ctx, 'corr_c06def', ['_map_identifiers', 'remap', 'cached rows scatter/gather'])
     lines, refs = [], []
     for N in range(1, 5):
         for p in itertools.permutations(range(N)):
@@ -104,6 +125,17 @@ def check_remap(ctx, case):
         p.cache_filter_function(om)
         p.get_total_phases(om)
         p.total_propagator_liouville
+    elif st == 'pc' and len(desc['dt']) >= 2:
+        # the pulse is itself a concatenation of its two halves with pulse-correlation data
+        k = len(desc['dt'])//2
+        halves = []
+        for sl in (slice(0, k), slice(k, None)):
+            h = dict(desc)
+            h['c_coeffs'] = np.asarray(desc['c_coeffs'])[:, sl]
+            h['n_coeffs'] = np.asarray(desc['n_coeffs'])[:, sl]
+            h['dt'] = np.asarray(desc['dt'])[sl]
+            halves.append(gens.build(h))
+        p = ff.concatenate(halves, calc_pulse_correlation_FF=True, omega=om)
     mapping = None
     new_nids = list(desc['n_ids'])
     new_cids = list(desc['c_ids'])
@@ -163,6 +195,19 @@ def check_remap(ctx, case):
             e = gens.rel_err(r.get_filter_function(om), ref.get_filter_function(om))
             if not e <= 1e-8:
                 probs.append(f'carried-over filter function differs by {e:.3g}')
+        if r.is_cached('control_matrix_pc'):
+            # pulse-correlation control matrices sum over the pulse index to the total one
+            e = gens.rel_err(np.sum(r._control_matrix_pc, axis=0), ref.get_control_matrix(om))
+            if not e <= 1e-8:
+                probs.append(f'carried-over pulse-correlation control matrix differs by {e:.3g}')
+        if r.is_cached('filter_function_pc'):
+            e = gens.rel_err(np.sum(r._filter_function_pc, axis=(0, 1)), ref.get_filter_function(om))
+            if not e <= 1e-8:
+                probs.append(f'carried-over pulse-correlation filter function differs by {e:.3g}')
+        # whatever was or was not carried over: the same request on the same grid
+        e = gens.rel_err(r.get_control_matrix(om), ref.get_control_matrix(om))
+        if not e <= 1e-8:
+            probs.append(f'control matrix requested on the grid of the input differs by {e:.3g}')
         e = gens.rel_err(r.get_filter_function(om*0.9), ref.get_filter_function(om*0.9))
         if not e <= 1e-8:
             probs.append(f'later requested filter function differs by {e:.3g}')
@@ -202,12 +247,16 @@ def search(ctx, deep=False):
         if n == 4 and not (ctx.tier == 'thorough' and deep):
             perms = [perms[i] for i in rng.choice(len(perms), 8, replace=False)]
         for order in perms:
-            for st in (['nothing', 'diag', 'cm', 'ff', 'all'] if big else
-                       [str(rng.choice(['nothing', 'diag', 'cm', 'ff', 'all']))]):
+            for st in (['nothing', 'diag', 'cm', 'ff', 'all', 'pc'] if big else
+                       [str(rng.choice(['nothing', 'diag', 'cm', 'ff', 'all', 'pc']))]):
                 cases.append((n, order, st))
+            if n == 3 and not big and list(order) in ([1, 2, 0], [2, 0, 1]):
+                # the two orders that differ from their inverse, on a pulse with pulse-correlation data
+                cases.append((n, order, 'pc'))
     for i, (n, order, st) in enumerate(cases):
         case = {'seed': int(rng.integers(0, 2**31)), 'n': n, 'order': list(order), 'state': st,
-                'n_dt': int(rng.integers(1, 3)), 'remap_ids': bool(rng.integers(0, 2)),
+                'n_dt': int(rng.integers(1, 3)) if st != 'pc' else int(rng.integers(2, 4)),
+                'remap_ids': bool(rng.integers(0, 2)),
                 'traceless': bool(rng.integers(0, 2))}
         check_remap(ctx, case)
         if i < 2:
